@@ -365,7 +365,7 @@ struct MemWorld : World
           break;
         case L_MALLOC:
           o.a[1] = (int64_t)r.below(T_COUNT);
-          o.a[2] = r.chance(2, 3) ? r.range(1, 8) : r.chance(1, 2) ? r.range(1, size / 2) : r.chance(1, 2) ? size : (int64_t)r.pick(std::vector<int64_t>{ 0xFFFFFFFFLL, 0x80000000LL, 0x40000001LL, 0x20000000LL, 0x10000002LL });
+          o.a[2] = r.chance(1, 12) ? 0 : r.chance(2, 3) ? r.range(1, 8) : r.chance(1, 2) ? r.range(1, size / 2) : r.chance(1, 2) ? size : (int64_t)r.pick(std::vector<int64_t>{ 0xFFFFFFFFLL, 0x80000000LL, 0x40000001LL, 0x20000000LL, 0x10000002LL });
           o.a[3] = r.chance(1, 10) ? 1 : r.chance(1, 12) ? 2 : r.chance(1, 14) ? 3 : 0; // F3 / F4 / F4 wild
           break;
         case C_ACCEPT:
@@ -754,8 +754,10 @@ struct MemWorld : World
   {
     SbxState& st = S[(size_t)s];
     uint32_t count = (uint32_t)op.a[2];
+    if (count == 0 && st.state == 1)
+      count = 1; // (inside the window a request for nothing aborts; outside it the answer is null whatever is asked for)
     if (count == 0)
-      count = 1;
+      C->probe("zero_elements_requested_outside_window");
     uint64_t before = st.impl()->n_mallocs;
     if (op.a[3] == 1)
       g_fault.malloc_fail = 1;
@@ -772,7 +774,9 @@ struct MemWorld : World
     C->ev("malloc #%d type %d count %u -> %s", s, (int)op.a[1], count, oname(o));
     if (st.state != 1) {
       C->probe("malloc_outside_window");
-      if (o != OK || p != nullptr || calls != 0)
+      if (o != OK)
+        C->violate("C14", "allocation_outside_window_does_not_return_null@malloc", "sandbox #%d state %d, %u elements: %s: %s", s, st.state, count, oname(o), g_last_abort_msg.c_str());
+      else if (p != nullptr || calls != 0)
         C->violate("C14",
                    "allocation_served_outside_window@malloc",
                    "sandbox #%d state %d outcome %s non-null=%d backend calls=%llu",
